@@ -37,5 +37,27 @@ case "$mode" in
   replay) "$SCR/simcheck" replay "$prop" "${3:?replay file}"; exit $? ;;
   quick|thorough) "$SCR/simcheck" "$prop" "$mode"; exit $? ;;
   eventlog) "$SCR/simcheck" eventlog "$prop" "${3:-quick}" "${4:-200}"; exit $? ;;
+  determinism)
+    # DESIGN §6.1: the same runs in many separate processes at GOMAXPROCS 1/4/16, two
+    # VERIF_SEED values; per-run event lines (scenario hash, observation digest, map-order
+    # permutations drawn, yields, switches, schedule hash) must be byte-identical.
+    nruns="${3:-200}"; nprocs="${4:-30}"; rc=0
+    for seed in "${VERIF_SEED:-1}" 7; do
+      i=0
+      while [ $i -lt "$nprocs" ]; do
+        for gmp in 1 4 16; do
+          i=$((i+1)); [ $i -le "$nprocs" ] || break
+          ( SIM_RELAX="${SIM_RELAX:-D2}" VERIF_SEED=$seed GOMAXPROCS=$gmp "$SCR/simcheck" eventlog "$prop" quick "$nruns" >"$SCR/ev.$seed.$i" 2>&1 ) &
+        done
+        wait
+      done
+      for f in "$SCR"/ev.$seed.*; do
+        if ! cmp -s "$SCR/ev.$seed.1" "$f"; then
+          echo "DETERMINISM FAILURE property=$prop seed=$seed: $(basename "$f") differs"; diff "$SCR/ev.$seed.1" "$f" | head -6; rc=2
+        fi
+      done
+      echo "determinism $prop seed=$seed: $nprocs processes x $(grep -c '^RUN' "$SCR/ev.$seed.1") runs, $( [ $rc = 0 ] && echo identical || echo DIFFERENT)"
+    done
+    exit $rc ;;
   *) echo "unknown mode $mode" >&2; exit 2 ;;
 esac
